@@ -198,6 +198,9 @@ def scan_trace(ctx, path, st, wanted_lines):
                     st.bump("buffer_full_ok")
                 if e.get("derr"):
                     st.bump("decoder_error_flag")
+                if e.get("teq"):
+                    st.bump("termination_boundary_full" if e["tb"] == 8 * e["n1"] else
+                            "termination_boundary_over" if e["tb"] == 8 * e["n1"] + 1 else "termination_boundary_other")
                 st.maxops = max(st.maxops, e["nops"])
             elif e["k"] == "end" and cur is not None:
                 if cur["err"] == 0 and cur["nops"] >= 2 and not cur.get("garb"):
@@ -403,7 +406,7 @@ def run(ctx):
     ctx.notes["lifted_behaviours"] = nl
     s = ctx.seed
     if tier == "quick":
-        jobs = [("rand", [s + i, 110, 4000]) for i in range(10)]
+        jobs = [("rand", [s + i, 160, 4000]) for i in range(10)]
         tffills = 1
     else:
         jobs = [("rand", [s + i, 900, 4000]) for i in range(48)]
@@ -463,7 +466,8 @@ def run(ctx):
     ctx.notes["implementation_corners"] = st.cov
     ctx.notes["full_width_redecoding_fraction"] = 1.0
     need = ["mext", "crun", "smov", "write_collision", "tell_eq_budget_ok", "patched_ok", "done_failed", "shrunk",
-            "uint_ft_ge_2^16", "raw_25_bits", "buffer_full_ok"]
+            "uint_ft_ge_2^16", "raw_25_bits", "buffer_full_ok",
+            "termination_boundary_full", "termination_boundary_over", "decoder_on_random_bytes"]
     missing = [k for k in need if st.cov.get(k, 0) == 0]
     kinds_missing = [k for k in ("enc", "bin", "logp", "icdf", "icdf16", "uint", "bits", "patch", "shrink") if st.kinds.get(k, 0) == 0]
     if not ctx.violations and (missing or kinds_missing or st.ok_execs < 50 or st.ok_ops < 5000):
